@@ -3,6 +3,7 @@ CONSTANTS
   Sizes <- S3
   Cuts <- CutsSmall
   PersistentReader = FALSE
+  BreakAllowed = FALSE
 VIEW View
 INVARIANTS NothingLost InOrderOnce
 PROPERTY AllDelivered
